@@ -25,24 +25,77 @@ Theorem C16_recovery_validates :
   end.
 Proof. vm_compute. split; reflexivity. Qed.
 
-(* ... but the storage cannot read record 3 from it: REFUTATION of "the storage serves each contained record
-   with its original bytes" (finding F7): the writer copies the header verbatim, so the index regenerated from
-   the recovered blob holds record 3's OLD blob_offset, and Entry::load at that offset fails *)
-Theorem C16_recovered_record_unreadable_refuted :
+(* ... and the storage reads records 1 and 3 from it with their original bytes: the scan that regenerates the index
+   returns two headers, record 3's header carries its NEW blob_offset 94 (it was at 203, behind the damaged record),
+   Entry::load succeeds through both, and the recovered file is byte for byte the blob the storage writes for
+   records 1 and 3 alone. Before commit 34bfd5d of the code (BlobWriter::write_record stamps the output position)
+   this was REFUTED (finding F7): the header was copied verbatim, record 3 kept its old offset and was unreadable. *)
+Definition c16_kept : list Pearl.Storage.Model.rec := [mk_rec 16 7 false None 8 5 1; mk_rec 18 7 false None 8 5 3].
+Theorem C16_recovered_records_readable :
   match tool_recover c16_meta_ok (flip_at c16_blob 170) true with
   | Some out =>
     match blob_open_scan out 4 false with
     | ROk [h1; h3] => entry_load out h1 = ROk (meta_bytes 0, gen_data 1 5) /\
-                      (exists e, entry_load out h3 = RFail e) /\ h_off h3 <> 94
+                      entry_load out h3 = ROk (meta_bytes 0, gen_data 3 5) /\
+                      h_off h1 = 20 /\ h_off h3 = 94 /\
+                      [h1; h3] = blob_headers 4 c16_kept /\ out = blob_file_bytes 4 c16_kept
     | _ => False
     end
   | None => False
   end.
-Proof. vm_compute. split; [reflexivity|]. split; [eexists; reflexivity|discriminate]. Qed.
+Proof. vm_compute. repeat split; reflexivity. Qed.
+
+(* a record whose METADATA does not decode (here: the middle record carries the map {"v": "1"}, which c16_meta_ok
+   rejects) is stepped over like a record with a wrong data checksum: without skipping only record 1 survives,
+   with skipping records 1 and 3 do, and the storage reads both from the recovered file *)
+Definition c16m_recs : list Pearl.Storage.Model.rec :=
+  [mk_rec 16 7 false None 8 5 1; mk_rec 17 7 false (Some 1) 8 40 2; mk_rec 18 7 false None 8 5 3].
+Definition c16m_blob : bytes := blob_file_bytes 4 c16m_recs.
+Example C16_recovery_skips_undecodable_meta :
+  map (fun r => c16_meta_ok (meta_bytes (r_meta r))) c16m_recs = [true; false; true] /\
+  tool_validate_blob c16_meta_ok c16m_blob = false /\
+  tool_recover c16_meta_ok c16m_blob false = Some (blob_file_bytes 4 [mk_rec 16 7 false None 8 5 1]) /\
+  match tool_recover c16_meta_ok c16m_blob true with
+  | Some out =>
+    tool_validate_blob c16_meta_ok out = true /\ length out = 168%nat /\
+    match blob_open_scan out 4 false with
+    | ROk [h1; h3] => entry_load out h1 = ROk (meta_bytes 0, gen_data 1 5) /\
+                      entry_load out h3 = ROk (meta_bytes 0, gen_data 3 5) /\
+                      h_off h1 = 20 /\ h_off h3 = 94 /\
+                      [h1; h3] = blob_headers 4 c16_kept /\ out = blob_file_bytes 4 c16_kept
+    | _ => False
+    end
+  | None => False
+  end.
+Proof. vm_compute. repeat split; reflexivity. Qed.
+
+(* the writer's stamp: the header written carries the given position; a right header checksum stays right;
+   a header already at its position is written unchanged; no other field changes *)
+Theorem C16_stamp_off : forall h o, h_off (stamp h o) = o.
+Proof. exact stamp_off. Qed.
+Theorem C16_stamp_crc : forall h o, h_hcrc h = header_crc h -> h_hcrc (stamp h o) = header_crc (stamp h o).
+Proof. exact stamp_crc. Qed.
+Theorem C16_stamp_same : forall h o, h_off h = o -> stamp h o = h.
+Proof. exact stamp_same. Qed.
+Theorem C16_stamp_other_fields : forall h o,
+  h_magic (stamp h o) = h_magic h /\ h_key (stamp h o) = h_key h /\ h_msize (stamp h o) = h_msize h /\
+  h_dsize (stamp h o) = h_dsize h /\ h_flags (stamp h o) = h_flags h /\ h_ts (stamp h o) = h_ts h /\
+  h_dcrc (stamp h o) = h_dcrc h.
+Proof. exact stamp_other_fields. Qed.
+Theorem C16_stamp_valid : forall h o, validate_header h = None -> validate_header (stamp h o) = None.
+Proof. exact stamp_valid. Qed.
 
 Print Assumptions C16_accepts_produced_blob.
+Print Assumptions C16_rejects_flipped_data.
+Print Assumptions C16_rejects_cut_record.
 Print Assumptions C16_recovery_validates.
-Print Assumptions C16_recovered_record_unreadable_refuted.
+Print Assumptions C16_recovered_records_readable.
+Print Assumptions C16_recovery_skips_undecodable_meta.
+Print Assumptions C16_stamp_off.
+Print Assumptions C16_stamp_crc.
+Print Assumptions C16_stamp_same.
+Print Assumptions C16_stamp_other_fields.
+Print Assumptions C16_stamp_valid.
 
 (* ---- general theorems over every well-formed blob (Blob/ToolsProofs.v; `rec` there is (key, ts, meta, data)) ---- *)
 Section General.
@@ -72,3 +125,39 @@ End General.
 Print Assumptions C16_validate_accepts_exactly_record_boundaries.
 Print Assumptions C16_validate_accepts_produced.
 Print Assumptions C16_recovery_keeps_exactly_the_complete_records.
+
+(* ---- recovery of ANY input file (damaged or not, with or without skipping): the positive theorem that replaces the
+   refutation F7 (Blob/ToolsProofs.v; an `item` is (header as read, meta, data); `out_of items out` writes the items
+   behind `out`, each through the stamping writer; `out_hdrs 20 items` are the stamped headers) ---- *)
+Section Recovered.
+Variable meta_ok : bytes -> bool.
+(* every record the tool appends was read successfully from the input, starts at the length of the output so far,
+   carries that position and a right checksum in its header, and Entry::load through that header returns the
+   metadata and data that were read *)
+Theorem C16_recovered_record_carries_its_position :
+  forall fuel b skip pos out,
+  exists items, tool_recover_loop meta_ok fuel b skip pos out = out_of items out /\
+    Forall (was_read meta_ok b) items /\
+    forall its1 h m d its2, items = its1 ++ (h, m, d) :: its2 ->
+      let o1 := out_of its1 out in
+      let h' := stamp h (N.of_nat (length o1)) in
+      (exists suf, out_of items out = o1 ++ encode_header h' ++ m ++ d ++ suf) /\
+      h_off h' = N.of_nat (length o1) /\ validate_header h' = None /\
+      entry_load (out_of items out) h' = ROk (m, d).
+Proof. exact (tool_recover_loop_offsets meta_ok). Qed.
+
+(* the storage opens the recovered file (scan with or without data validation), gets one header per written record,
+   and reads every one of them back *)
+Theorem C16_recovered_blob_is_served :
+  forall K b skip out v,
+  wf_bytes b -> blob_header_check b = None ->
+  (forall pos h m d p', tool_read meta_ok b pos = inl (h, m, d, p') -> N.of_nat (length (h_key h)) = K) ->
+  tool_recover meta_ok b skip = Some out -> N.of_nat (length out) < 2^64 ->
+  exists items,
+    Forall (was_read meta_ok b) items /\ out = out_of items (firstn 20 b) /\
+    blob_open_scan out K v = ROk (out_hdrs 20 items) /\
+    Forall2 (fun it h' => entry_load out h' = ROk (snd (fst it), snd it)) items (out_hdrs 20 items).
+Proof. exact (tool_recover_served meta_ok). Qed.
+End Recovered.
+Print Assumptions C16_recovered_record_carries_its_position.
+Print Assumptions C16_recovered_blob_is_served.
